@@ -15,7 +15,7 @@
      l1_normalize         <- temp = result.sum(); if temp > 0: result /= temp
      kernel               <- flat_kernel / harmonic_kernel / geometric_kernel
      timed_kernel         <- timed_flat_kernel / timed_geometric_kernel  (base weights = g(time_delta))
-     multi_kernel         <- multi_flat_kernel / multi_geometric_kernel  (after the D26 repair)
+     multi_kernel         <- multi_flat_kernel / multi_geometric_kernel  (after the D26 and D31 repairs)
 *)
 From Coq Require Import List Arith Bool.
 Import ListNotations.
@@ -105,9 +105,19 @@ Fixpoint multi_fill {K : carrier} (kf : nat -> K) (mask : option nat) (offset : 
       ++ multi_fill kf mask offset (S i) rest
   end.
 
-Definition multi_kernel {K : carrier} (kf : nat -> K) (mask : option nat) (normalize : bool) (offset : nat)
+(* kernel_result[target_ind] = 0; if mask_index is not None and window[0][target_ind] == mask_index: kernel_result[:] = 0
+   (the window always starts with the target's own multiset: a nullified mask has no contexts; repair of D31) *)
+Definition multi_raw {K : carrier} (kf : nat -> K) (mask : option nat) (offset : nat)
            (window : list (list nat)) (target_ind : nat) : list K :=
   let r := upd (multi_fill kf mask offset 0 window) target_ind zero in
+  match mask with
+  | Some m => if Nat.eqb (nth target_ind (hd [] window) 0) m then map (fun _ => zero) r else r
+  | None => r
+  end.
+
+Definition multi_kernel {K : carrier} (kf : nat -> K) (mask : option nat) (normalize : bool) (offset : nat)
+           (window : list (list nat)) (target_ind : nat) : list K :=
+  let r := multi_raw kf mask offset window target_ind in
   if normalize then l1_normalize r else r.
 
 (* ---------- vocabulary of the pointwise specifications (no slicing, no clipping, no loop order) ---------- *)
